@@ -616,6 +616,11 @@ var variants = []variant{
 		opFilter: func(o opdef) bool {
 			return o.name != "unfreeze(p3)" && o.name != "complainA(p3,cu=50)" && o.name != "complainA(p0,cu=1)" && o.name != "service(p0,cu=10)" && o.name != "complainB(p0,cu=5)"
 		}},
+	// p0 serviced CU (and got a one-CU report) three epochs ago: serviced CU at the far end of the 8-epoch window, outside
+	// the 2-epoch complaints window, must still count against fresh complaints
+	{name: "c19/oldservice", rec: 1, p3: "frozen",
+		prefix: []string{"service(p0,cu=10)", "complainA(p0,cu=1)", "next-epoch", "next-epoch", "next-epoch"},
+		opFilter: func(o opdef) bool { return o.name != "unfreeze(p0)" && o.name != "unfreeze(p3)" && o.name != "complainA(p3,cu=50)" }},
 	// the default RecommendedEpochNumToCollectPayment (3) with a reduced alphabet
 	{name: "c19/rec3", rec: 3, p3: "frozen",
 		opFilter: func(o opdef) bool {
@@ -638,9 +643,9 @@ func init() {
 			depth    int
 			deadline time.Duration
 		}
-		plans := []plan{{"c19/frozen4th", 4, 120 * time.Second}, {"c19/late4th", 4, 120 * time.Second}, {"c19/twojails", 4, 120 * time.Second}, {"c19/rec3", 5, 120 * time.Second}}
+		plans := []plan{{"c19/frozen4th", 4, 120 * time.Second}, {"c19/late4th", 4, 120 * time.Second}, {"c19/twojails", 4, 120 * time.Second}, {"c19/oldservice", 4, 90 * time.Second}, {"c19/rec3", 5, 120 * time.Second}}
 		if ev.Tier() == "thorough" {
-			plans = []plan{{"c19/frozen4th", 6, 5 * time.Minute}, {"c19/late4th", 5, 3 * time.Minute}, {"c19/twojails", 6, 3 * time.Minute}, {"c19/rec3", 7, 3 * time.Minute}}
+			plans = []plan{{"c19/frozen4th", 6, 5 * time.Minute}, {"c19/late4th", 5, 3 * time.Minute}, {"c19/twojails", 6, 3 * time.Minute}, {"c19/oldservice", 6, 3 * time.Minute}, {"c19/rec3", 7, 3 * time.Minute}}
 		}
 		exhaustive := true
 		var bounds []string
